@@ -1,4 +1,6 @@
 import Texel.Model.Snap
+import Texel.Model.SplitF
+import Texel.Model.AssembleF
 /-! # Texel.Model.SnapF — `snap.SnapPolygon` as a composition of functions (core-only, executable)
 
 The same behaviour as the line-by-line transcription `Texel.snapPolygon` (`Model/Snap.lean`, kept as a reference and
@@ -9,8 +11,8 @@ compared with this one by the driver op `snapboth`), but written so that theorem
   `hitOnce[level]`, `hitMultiple[level]`, `newOuters[level]` …) never mixes levels, and `len(levelMap) == 0` only skips
   work for levels that are all dead;
 * per ring: normalise orientation, route every edge (`routeRing`), join (`joinChain` = `cleanupNewVertices`),
-  repeated-vertex flags by counting (`isHitF`, the closed form of `checkPointHits`), then `cleanupNewRing`;
-* per level: `dedupeInnersOuters`, `matchInnersToPolygons`, reverse flag, points and lines appended. -/
+  repeated-vertex flags by counting (`isHitF`, the closed form of `checkPointHits`), then `cleanupNewRingF` (the functional `cleanupNewRing`/`splitRing`);
+* per level: `dedupeF`, `matchF` (the decisions of `dedupeInnersOuters` and `matchInnersToPolygons`, applied functionally), reverse flag, points and lines appended. -/
 namespace Texel
 
 def Quad.toP (q : Quad) : P := ((q.x : Int), (q.y : Int))
@@ -58,7 +60,7 @@ def processRing (g : Grid) (hot : Nat → Quad → Bool) (l : Nat) (isOuter : Bo
   let routed := routeRing g hot l (normaliseRing ring (!isOuter))
   match joinChain routed with
   | none => .error "no points found"
-  | some chain => cleanupNewRing chain.toArray isOuter (isHitF (ringHits routed))
+  | some chain => cleanupNewRingF chain isOuter (isHitF (ringHits routed))
 
 structure Acc where
   outers : Array (Array P) := #[]
@@ -78,10 +80,10 @@ def processHoles (g : Grid) (hot : Nat → Quad → Bool) (l : Nat) (keep : Bool
 
 abbrev Poly := Array (Array P)
 
-/-- `dedupeInnersOuters` then `matchInnersToPolygons`: the polygons of a level before the flags are applied -/
+/-- `dedupeInnersOuters` then `matchInnersToPolygons` (functional forms): the polygons of a level before the flags are applied -/
 def assembleCore (a : Acc) : Except String (Array Poly) := do
-  let (o, i) ← dedupeInnersOuters a.outers a.inners
-  return matchInnersToPolygons (o.map fun r => #[r]) i
+  let (o, i) ← dedupeF a.outers a.inners
+  return matchF (o.map fun r => #[r]) i
 
 def reversePolys (polys : Array Poly) : Array Poly := polys.map fun pg => pg.map Array.reverse
 
